@@ -134,6 +134,19 @@ func genSqrt(r *hx.RNG, l hx.Limits) *opCase {
 		}
 		k.x = oracle.Val{Form: oracle.Finite, Coef: x, Exp: -2*z + 2*int64(r.Range(-20, 20))}
 		k.p = int64(oracle.Digits(s))
+	case shape < 74: // one- and two-word operands made of edge words (B-1, B/2, B/k, 2^63, 2^62, 2^64-B, 2^32 ...), any exponent parity:
+		// a shortcut for short operands works on machine words, where the boundaries are binary
+		xc := new(big.Int).SetUint64(uint64(genWord(r)))
+		if xc.Sign() == 0 || r.Chance(25) {
+			xc.SetUint64(r.U64()%(wb-wb/10) + wb/10) // a full 19-digit word
+		}
+		if r.Chance(30) {
+			xc.Mul(xc, new(big.Int).SetUint64(wb))
+			xc.Add(xc, new(big.Int).SetUint64(uint64(genWord(r))))
+		}
+		k.x = oracle.Val{Form: oracle.Finite, Coef: xc, Exp: expo()}
+		k.p = int64([]int{1, 5, 9, 10, 19, 20, r.Range(1, 40), r.Range(1, 120)}[r.Intn(8)])
+		k.class = "edge-words"
 	default:
 		n := r.Range(1, maxLen)
 		k.x = oracle.Val{Form: oracle.Finite, Coef: hx.CoefOf(r.Digits(n)), Exp: expo()}
